@@ -149,8 +149,6 @@ func (e *Exec) matchTracks(common *ssa.CallCommon) []*trackInfo {
 				m := common.Method.Name()
 				if typeString(common.Value.Type())+"."+m == ti.target {
 					out = append(out, ti)
-				} else if recv := common.Method.Type().(*types.Signature).Recv(); recv != nil && typeString(recv.Type())+"."+m == ti.target {
-					out = append(out, ti)
 				}
 			}
 		case "call":
@@ -576,7 +574,7 @@ func (e *Exec) isZapPrivateComp(n string) bool {
 	}
 	if strings.HasPrefix(n, "H:") || strings.HasPrefix(n, "E:") || strings.HasPrefix(n, "C:") {
 		rest := strings.TrimLeft(n[2:], "_")
-		for _, p := range []string{"sync_atomic.", "bufio.", "zap.", "zapcore.", "buffer.", "zapio.", "zapgrpc.", "zaptest.", "internal_", "exp_", "observer.", "zaptest_"} {
+		for _, p := range []string{"time.", "sync_atomic.", "bufio.", "zap.", "zapcore.", "buffer.", "zapio.", "zapgrpc.", "zaptest.", "internal_", "exp_", "observer.", "zaptest_"} {
 			if strings.HasPrefix(rest, p) {
 				return true
 			}
